@@ -162,3 +162,23 @@ pub fn window(a: &[String]) -> Value {
            "expected": if inside { "accepted (inside the window)" } else { "refused before the backend runs (outside the window)" },
            "observed": {"status": st, "backend_calls": calls, "body": body.chars().take(200).collect::<String>()}, "replay_args": ["window", a[0], a[1]]})
 }
+
+/// sigv4-header-value <value>: a header-authenticated GET whose signed header x-amz-meta-probe carries the given value; the
+/// reference signer canonicalises it per the specification (Trimall: trim, collapse sequential spaces)
+pub fn header_value(a: &[String]) -> Value {
+    let raw = a[0].clone();
+    let trimall = raw.split(' ').filter(|p| !p.is_empty()).collect::<Vec<_>>().join(" ");
+    let (date, stamp) = now_stamp(0);
+    let payload = "UNSIGNED-PAYLOAD";
+    let host = "localhost";
+    let canonical = format!("GET\n/bkt/key\n\nhost:{host}\nx-amz-content-sha256:{payload}\nx-amz-date:{stamp}\nx-amz-meta-probe:{trimall}\n\nhost;x-amz-content-sha256;x-amz-date;x-amz-meta-probe\n{payload}");
+    let scope = format!("{date}/us-east-1/s3/aws4_request");
+    let sts = format!("AWS4-HMAC-SHA256\n{stamp}\n{scope}\n{}", sha256_hex(canonical.as_bytes()));
+    let sig = hex(&hmac(&signing_key(&date, "us-east-1", "s3"), sts.as_bytes()));
+    let auth = format!("AWS4-HMAC-SHA256 Credential={AK}/{scope}, SignedHeaders=host;x-amz-content-sha256;x-amz-date;x-amz-meta-probe, Signature={sig}");
+    let (st, calls, body) = send("GET", "/bkt/key", "", vec![("host".into(), host.into()), ("x-amz-content-sha256".into(), payload.into()), ("x-amz-date".into(), stamp),
+        ("x-amz-meta-probe".into(), raw.clone()), ("authorization".into(), auth)]);
+    let ok = calls.len() == 1;
+    json!({"violates": !ok, "input": {"x-amz-meta-probe": raw, "canonical_value": trimall}, "expected": "authenticated (one backend invocation)",
+           "observed": {"status": st, "backend_calls": calls, "body": body.chars().take(200).collect::<String>()}, "replay_args": ["sigv4-header-value", a[0]]})
+}
